@@ -93,7 +93,8 @@ func (n *Node) setPath(paths ...string) {
 
 func (n *Node) validatePath() error {
 	invalidChars := "/" // NOTE: ディレクトリ名に含めてはまずそうなものをここに追加する
-	if strings.ContainsAny(n.name, invalidChars) {
+	// "." and ".." are resolved away by path.Join in setPath, so the path check below cannot see them.
+	if strings.ContainsAny(n.name, invalidChars) || n.name == "" || n.name == "." || n.name == ".." {
 		return fmt.Errorf("invalid node name: %s", n.name)
 	}
 	if !fs.ValidPath(n.path()) {
